@@ -642,25 +642,23 @@ theorem sle_history_cache_consistent (c : Cls K) (hist : List (Rows K × Nat)) :
     | cons p rest ih => intro k0 h; exact ih _ (sleSetupC_ok c k0 h p.1 p.2)
   exact this {} (fun nz h => by cases h)
 
-/-- After a `_setup` that returns, for an LLE-capable solute: either the object is in pure-solute mode (the
-melting-point setters run; they do not use the index) or the solute is a member of the index
-`_update_solubility` will use — whether the index was rebuilt or re-used from an earlier call with other
-amounts or another solute.  This is the hypothesis of `sle_nonneg`. -/
-theorem sle_setup_solute_in_index (c : Cls K) (cache : SCache) (hc : SCacheOK c cache) (r : Rows K) (j : Nat)
-    (hj : j < c.n) (hlle : j ∈ c.lle) (hok : (sleSetupC c cache r j).2 = .ok ()) :
+/-- With the re-use path checked like the rebuild path (fixes_proposed/C03-3.md) the same holds for EVERY solute, with no
+assumption on it or on the cache: a `_setup` that returns leaves the object in pure-solute mode or the solute in
+the index — the hypothesis of `sle_nonneg` is then met by every `_update_solubility` a history can reach. -/
+theorem sle_setup_ok_solute_in_index (c : Cls K) (cache : SCache) (r : Rows K) (j : Nat)
+    (hok : (sleSetupC c cache r j).2 = .ok ()) :
     (sleSetupC c cache r j).1.pure = true ∨ j ∈ (sleSetupC c cache r j).1.idx := by
   unfold sleSetupC at hok ⊢
   simp only at hok ⊢
   split
   · rename_i hnz
     simp only [hnz, if_true] at hok
-    have hjnz : j ∈ nzKeys c (tab c.n fun i => get r.l i + get r.s i) := by
-      unfold nzKeys; exact List.mem_filter.mpr ⟨List.mem_range.mpr hj, hnz⟩
     split
     · rename_i hk
-      right
-      rw [hc _ hk]
-      exact List.mem_filter.mpr ⟨hlle, by simpa using hjnz⟩
+      simp only [hk, if_true] at hok
+      split
+      · rename_i hm; right; exact hm
+      · rename_i hm; simp only [hm, if_false] at hok; cases hok
     · rename_i hk
       simp only [hk, if_false] at hok
       split
@@ -673,6 +671,16 @@ theorem sle_setup_solute_in_index (c : Cls K) (cache : SCache) (hc : SCacheOK c 
   · rename_i hnz
     simp only [hnz] at hok
     cases hok
+
+set_option linter.unusedVariables false in
+/-- After a `_setup` that returns, for an LLE-capable solute: either the object is in pure-solute mode (the
+melting-point setters run; they do not use the index) or the solute is a member of the index
+`_update_solubility` will use — whether the index was rebuilt or re-used from an earlier call with other
+amounts or another solute.  This is the hypothesis of `sle_nonneg`. -/
+theorem sle_setup_solute_in_index (c : Cls K) (cache : SCache) (hc : SCacheOK c cache) (r : Rows K) (j : Nat)
+    (hj : j < c.n) (hlle : j ∈ c.lle) (hok : (sleSetupC c cache r j).2 = .ok ()) :
+    (sleSetupC c cache r j).1.pure = true ∨ j ∈ (sleSetupC c cache r j).1.idx :=
+  sle_setup_ok_solute_in_index c cache r j hok
 
 /-! ## The lever rule as found (defect C03-1) -/
 
